@@ -1,0 +1,99 @@
+//go:build verif
+
+package processor
+
+// Observation hooks for the runtime monitors in /verif. Compiled only with -tags verif.
+// They expose the real handlers and a read-only view of the aggregation state; none of them
+// changes the behaviour of the code in the other files of this package.
+
+import (
+	"context"
+	"sort"
+	"time"
+
+	"github.com/alephium/wormhole-fork/node/pkg/common"
+	gossipv1 "github.com/alephium/wormhole-fork/node/pkg/proto/gossip/v1"
+	"github.com/alephium/wormhole-fork/node/pkg/vaa"
+)
+
+func (p *Processor) VerifHandleMessage(ctx context.Context, k *common.MessagePublication) {
+	p.handleMessage(ctx, k)
+}
+
+func (p *Processor) VerifHandleObservation(ctx context.Context, m *gossipv1.SignedObservation) {
+	p.handleObservation(ctx, m)
+}
+
+func (p *Processor) VerifHandleInbound(ctx context.Context, m *gossipv1.SignedVAAWithQuorum) {
+	p.handleInboundSignedVAAWithQuorum(ctx, m)
+}
+
+func (p *Processor) VerifHandleInjection(ctx context.Context, v *vaa.VAA) {
+	p.handleInjection(ctx, v)
+}
+
+func (p *Processor) VerifHandleCleanup(ctx context.Context) {
+	p.handleCleanup(ctx)
+}
+
+// VerifSetGuardianSet performs exactly what the `case p.gs = <-p.setC` branch of Run does.
+func (p *Processor) VerifSetGuardianSet(gs *common.GuardianSet) {
+	p.gs = gs
+	p.gst.Set(p.gs)
+}
+
+// VerifEntry is a copy of one aggregation-state entry.
+type VerifEntry struct {
+	Digest      string
+	HasOurVAA   bool
+	HasOurMsg   bool
+	Submitted   bool
+	Settled     bool
+	RetryCount  uint
+	Source      string
+	Signers     []string // hex addresses, sorted
+	GSIndex     int64    // -1 when no guardian set snapshot is attached
+	FirstAge    time.Duration
+	LastRetryAt time.Time
+}
+
+// VerifSnapshot returns a deep copy of the aggregation state, sorted by digest.
+func (p *Processor) VerifSnapshot() []VerifEntry {
+	now := time.Now()
+	out := make([]VerifEntry, 0, len(p.state.vaaSignatures))
+	for h, s := range p.state.vaaSignatures {
+		e := VerifEntry{
+			Digest:      h,
+			HasOurVAA:   s.ourVAA != nil,
+			HasOurMsg:   s.ourMsg != nil,
+			Submitted:   s.submitted,
+			Settled:     s.settled,
+			RetryCount:  s.retryCount,
+			Source:      s.source,
+			GSIndex:     -1,
+			FirstAge:    now.Sub(s.firstObserved),
+			LastRetryAt: s.lastRetry,
+		}
+		if s.gs != nil {
+			e.GSIndex = int64(s.gs.Index)
+		}
+		for a := range s.signatures {
+			e.Signers = append(e.Signers, a.Hex())
+		}
+		sort.Strings(e.Signers)
+		out = append(out, e)
+	}
+	sort.Slice(out, func(i, j int) bool { return out[i].Digest < out[j].Digest })
+	return out
+}
+
+// VerifAge makes every aggregation entry d older (shifts firstObserved and a non-zero lastRetry
+// back by d). It is the monitors' logical clock for handleCleanup, which reads time.Since.
+func (p *Processor) VerifAge(d time.Duration) {
+	for _, s := range p.state.vaaSignatures {
+		s.firstObserved = s.firstObserved.Add(-d)
+		if !s.lastRetry.IsZero() {
+			s.lastRetry = s.lastRetry.Add(-d)
+		}
+	}
+}
